@@ -4,6 +4,7 @@ use crate::ast::{
     PermCheck, PositionalOption, Size, Test, TimeSpec,
 };
 use crate::scheme::error::CompileError;
+use crate::scheme::escape_string;
 use crate::scheme::manager::SchemeManager;
 use crate::{Mode, SFlag};
 
@@ -107,20 +108,29 @@ fn compile_perm_check(buffer: &mut String, check: &PermCheck) {
     buffer.push_str(&code)
 }
 
-fn literal(special: &FormatSpecial) -> String {
-    match special {
+/// Text that goes in a `format` template and has to be printed as it is: on top of the string
+/// escaping, a tilde would start a directive
+fn template_text(raw: &str) -> String {
+    escape_string(raw).replace('~', "~~")
+}
+
+fn literal(special: &FormatSpecial) -> CResult<String> {
+    Ok(match special {
         FormatSpecial::Alarm => "\\a".to_string(),
-        FormatSpecial::Ascii(val) => format!("{}", char::from_u32(*val as u32).unwrap_or('0')),
-        FormatSpecial::Backslash => "\\".to_string(),
+        FormatSpecial::Ascii(val) => {
+            template_text(&char::from_u32(*val as u32).unwrap_or('0').to_string())
+        }
+        FormatSpecial::Backslash => "\\\\".to_string(),
         FormatSpecial::Backspace => "\\b".to_string(),
         FormatSpecial::CarriageReturn => "\\r".to_string(),
-        FormatSpecial::Clear => "\\c".to_string(),
+        // There is no way to stop a format halfway, and no such escape in Scheme strings
+        FormatSpecial::Clear => return Err(CompileError::UnsupportedFormat(format!("{special:?}"))),
         FormatSpecial::Form => "\\f".to_string(),
         FormatSpecial::Newline => "\\n".to_string(),
         FormatSpecial::Null => "\\0".to_string(),
         FormatSpecial::TabHorizontal => "\\t".to_string(),
         FormatSpecial::TabVertical => "\\v".to_string(),
-    }
+    })
 }
 
 fn placeholder(field: &FormatField) -> CResult<&'static str> {
@@ -207,21 +217,32 @@ fn snippet(field: &FormatField) -> CResult<Option<String>> {
 
         FormatField::AccessFormatted(f) => match f {
             '@' => "atime".to_string(),
-            f => format!("strftime \"%{f}\" (localtime (atime))"),
+            f => format!(
+                "strftime \"%{}\" (localtime (atime))",
+                escape_string(&f.to_string())
+            ),
         }
         .to_string(),
 
         FormatField::ChangeFormatted(f) => match f {
             '@' => "ctime".to_string(),
-            f => format!("strftime \"%{f}\" (localtime (ctime))"),
+            f => format!(
+                "strftime \"%{}\" (localtime (ctime))",
+                escape_string(&f.to_string())
+            ),
         },
 
         FormatField::ModifyFormatted(f) => match f {
             '@' => "mtime".to_string(),
-            f => format!("strftime \"%{f}\" (localtime (mtime))"),
+            f => format!(
+                "strftime \"%{}\" (localtime (mtime))",
+                escape_string(&f.to_string())
+            ),
         },
 
-        FormatField::XAttr(attr) => format!("or (xattr-ref-string \"{attr}\") \"\"").to_owned(),
+        FormatField::XAttr(attr) => {
+            format!("or (xattr-ref-string \"{}\") \"\"", escape_string(attr))
+        }
 
         FormatField::Depth
         | FormatField::DeviceNumber
@@ -242,9 +263,9 @@ impl TargetScheme for Vec<FormatElement> {
         let template = self
             .iter()
             .map(|el| match el {
-                FormatElement::Literal(s) => Ok(s.clone()),
+                FormatElement::Literal(s) => Ok(template_text(s)),
                 FormatElement::Field(f) => placeholder(f).map(|s| s.to_string()),
-                FormatElement::Special(v) => Ok(literal(v)),
+                FormatElement::Special(v) => literal(v),
             })
             .collect::<CResult<Vec<String>>>()?
             .join("");
@@ -286,7 +307,7 @@ impl TargetScheme for Test {
             Test::Name(s) => buffer.push_str(&format!("(call-with-name {})", ctx.get_matcher(s, false))),
             Test::Path(s) => buffer.push_str(&format!("(call-with-relative-path {})", ctx.get_matcher(s, false))),
             Test::Perm(check) => compile_perm_check(buffer, check),
-            Test::Pool(pool_name) => buffer.push_str(&format!("(member \"{pool_name}\" (lov-pools))")),
+            Test::Pool(pool_name) => buffer.push_str(&format!("(member \"{}\" (lov-pools))", escape_string(pool_name))),
             Test::Readable => buffer.push_str("(readable)"),
             Test::Size(cmp) => compile_size_comp(buffer, &cmp),
             Test::StripeCount(cmp) => buffer.push_str(&format_cmp!(cmp, "lov-stripe-count")),
@@ -294,10 +315,12 @@ impl TargetScheme for Test {
             Test::Type(list) => compile_type_list_comp(buffer, list),
             Test::UserId(cmp) => buffer.push_str(&format_cmp!(cmp, "uid")),
             Test::Writable => buffer.push_str("(writable)"),
-            Test::Xattr(field) => buffer.push_str(&format!("(xattr? \"{field}\")")),
+            Test::Xattr(field) => buffer.push_str(&format!("(xattr? \"{}\")", escape_string(field))),
             Test::XattrMatch(field, value) => {
                 let offending = |c:char| {"*?['".contains(c)};
-                if !(field.contains(offending) || value.contains(offending)) {
+                let pattern = field.contains(offending) || value.contains(offending);
+                let (field, value) = (escape_string(field), escape_string(value));
+                if !pattern {
                     buffer.push_str(&format!("(equal? (xattr-ref-string \"{field}\") \"{value}\")"));
                 } else {
                     buffer.push_str(&format!("(xattr-match? \"{field}\" \"{value}\")"));
